@@ -20,7 +20,8 @@ EXPLANATION = (
     "is read before the next instruction overwrites it; (R9) the error edges of the "
     "fetch-execute loop leave the context stack as the failing statement found it (shared with C05.R6)."
     " (R10) RESUME label cuts the VM stacks back to the depths recorded by the outermost active call (shared with C05.R11)."
-    " (R11 = C03.R4) the call templates stash and write back the same argument list in the prescribed order.")
+    " (R11 = C03.R4) the call templates stash and write back the same argument list in the prescribed order."
+    " (R12 = C05.R5) a call that ends restores the register, value and GOSUB stacks to the depths recorded when it began: what the callee left parked does not reach the caller.")
 NOT_DECIDED = [
     "well-formedness of the instruction list for one given program (that is a run of the generator)",
     "labels whose name is computed at generation time (else-if-N, caseN): depths at those sites "
@@ -616,3 +617,6 @@ def run(ctx):
     # the same argument list, in the prescribed order
     from . import c03
     c03.r4_activation_pairing(ctx, "C15.R11")
+    # a call that ends restores the VM stacks to the depths recorded when it began: what the callee left parked (a
+    # value, a register frame, a GOSUB) does not reach the caller (shared with C05.R5)
+    c05.r5_register_frames(ctx, "C15.R12")
